@@ -809,7 +809,7 @@ def _pinned_functions():
 
 
 def inline_methods_by_name(index: RepoIndex, expr: ast.AST, depth: int = 3,
-                           exclude: tuple = ()) -> ast.AST:
+                           exclude: tuple = (), new_only: bool = False) -> ast.AST:
     """replace `recv.m(args)` by the body expression of `m` when exactly one class of the
     package defines a method `m`, that method is a pure one-expression method (locals
     expanded) and the name is not one of the builtin container methods.  Used by rules as a
@@ -842,6 +842,10 @@ def inline_methods_by_name(index: RepoIndex, expr: ast.AST, depth: int = 3,
                 return c
             if isinstance(c.func.value, ast.Name) and c.func.value.id in module_aliases:
                 return c        # `np.tile(..)`: a library function, not a method
+            if new_only:
+                from .pinned_names import METHODS as _PM
+                if c.func.attr in _PM:
+                    return c    # a method of the pinned tree is vocabulary
             cands = by_name.get(c.func.attr, [])
             if len(cands) != 1:
                 return c
@@ -879,7 +883,7 @@ def inline_methods_by_name(index: RepoIndex, expr: ast.AST, depth: int = 3,
             if comp_targets & free:
                 return c
             out = _SubstNames(bound).visit(copy.deepcopy(e))
-            return inline_methods_by_name(index, out, depth - 1, exclude)
+            return inline_methods_by_name(index, out, depth - 1, exclude, new_only)
 
         def visit_Attribute(self, a: ast.Attribute):
             a = self.generic_visit(a)
